@@ -4,7 +4,9 @@
 (* partition the reduction loop ends with.                                    *)
 EXTENDS Reduction, Json
 
-AllKinds == {"alias", "palias", "const", "sum", "inc", "lag", "exo", "time"}
+OldKinds == {"alias", "palias", "const", "sum", "inc", "lag", "exo", "time"}
+NewKinds == {"neg", "sq", "nsq", "dbl", "diff"}
+AllKinds == OldKinds \cup NewKinds
 BothICs  == {NoIC, 3}
 
 MC_Vars3 == << "x", "y", "w" >>
@@ -13,18 +15,35 @@ MC_Vars4 == << "x", "y", "x1", "y1" >>       \* names that are prefixes of each 
 MC_ExoPaths == ("x" :> << 1, 2, 4, 7 >>) @@ ("y" :> << 2, 6, 1, 4 >>) @@ ("w" :> << 6, 1, 2, 9 >>)
             @@ ("x1" :> << 6, 1, 2, 9 >>) @@ ("y1" :> << 4, 0, 8, 3 >>)
 
-(* quick: every system over 1 and 2 variables; of the 3-variable systems the slice in which the *)
-(* third variable is  u + 1  or a lag and carries no initial condition                          *)
-MC_KindsQuick == << AllKinds, AllKinds, {"inc", "lag"} >>
-MC_ICsQuick   == << BothICs, BothICs, {NoIC} >>
-
-(* thorough: every system over 3 variables *)
 MC_KindsAll3 == << AllKinds, AllKinds, AllKinds >>
 MC_ICsAll3   == << BothICs, BothICs, BothICs >>
-
-(* simulation: systems over 4 variables *)
 MC_KindsAll4 == << AllKinds, AllKinds, AllKinds, AllKinds >>
 MC_ICsAll4   == << BothICs, BothICs, BothICs, BothICs >>
+
+KindsOf(f) == { f[x].kind : x \in DOMAIN f }
+NumICs(c)  == Cardinality({ x \in DOMAIN c : c[x] # NoIC })
+
+(* quick: every system over 1 and 2 variables (all kinds); of the 3-variable systems two slices, *)
+(* the third variable carrying no initial condition:                                             *)
+(*   A  first two variables of the kinds without sign / power / product, third  u + 1  or a lag  *)
+(*   B  first variable a (negated / plain / plus-) alias, second a base (constant, lag, path,    *)
+(*      time) or again an alias / negation, third a USE: u**2, -u**2, 2*u, u - v, -u             *)
+(*      -> contains every pair (negated alias, square of it)                                     *)
+MC_LineQuick(i, d, ic, a, c) ==
+    \/ i <= 2
+    \/ /\ i = 3 /\ ic = NoIC
+       /\ \/ d.kind \in {"inc", "lag"} /\ KindsOf(a) \subseteq OldKinds
+          \/ /\ d.kind \in NewKinds
+             /\ a[Vars[1]].kind \in {"neg", "alias", "palias"}
+             /\ a[Vars[2]].kind \in {"const", "lag", "exo", "time", "neg", "alias"}
+
+(* thorough: every system over 3 variables of the kinds of slice A (any initial conditions) and   *)
+(* every system over 3 variables of all kinds with at most one initial condition                  *)
+MC_LineThorough(i, d, ic, a, c) ==
+    \/ KindsOf(a) \cup {d.kind} \subseteq OldKinds
+    \/ NumICs(c) + (IF ic = NoIC THEN 0 ELSE 1) <= 1
+
+MC_LineAny(i, d, ic, a, c) == TRUE
 
 OrigDef(x) ==
     IF x \in SeqVars(orig.lagged) THEN D("lag", orig.lagged[LagOf(orig, x)].src, "", 0, << >>)
